@@ -871,11 +871,27 @@ impl MachineState {
                 (HeapCellValueTag::PStrLoc, pstr_loc) => {
                     let heap_slice = &self.heap.as_slice()[pstr_loc ..];
 
-                    match compare_pstr_slices(heap_slice, string_cursor.as_bytes()) {
+                    // A string segment in the heap never contains the NUL character, but the
+                    // literal may: compare the segment with the literal up to its next NUL only
+                    // (compare_pstr_slices reads a zero byte as the end of a string).
+                    let seg_len = string_cursor.find('\u{0}').unwrap_or(string_cursor.len());
+                    let literal_continues = seg_len < string_cursor.len();
+
+                    if seg_len == 0 {
+                        // the literal continues with NUL, the heap string with another character
+                        self.fail = true;
+                        break;
+                    }
+
+                    match compare_pstr_slices(heap_slice, &string_cursor.as_bytes()[.. seg_len]) {
                         PStrSegmentCmpResult::Continue(v1, v2) => {
                             // for v2, the value of a TailIndex mustn't ever be read
                             // since string does not lie in the heap.
                             match (v1, v2) {
+                                (PStrContinuable::TailIndex(tail_idx), PStrContinuable::TailIndex(_)) if literal_continues => {
+                                    h = tail_idx + cell_index!(pstr_loc);
+                                    string_cursor = &string_cursor[seg_len ..];
+                                }
                                 (PStrContinuable::TailIndex(tail_idx), PStrContinuable::TailIndex(_)) => {
                                     self.s = HeapPtr::HeapCell(tail_idx + cell_index!(pstr_loc));
                                     self.s_offset = 0;
@@ -886,6 +902,11 @@ impl MachineState {
                                 (PStrContinuable::TailIndex(tail_idx), PStrContinuable::PStrOffset(pos)) => {
                                     h = tail_idx + cell_index!(pstr_loc);
                                     string_cursor = &string_cursor[pos ..];
+                                }
+                                (PStrContinuable::PStrOffset(_), PStrContinuable::TailIndex(_)) if literal_continues => {
+                                    // the literal continues with NUL, the heap string does not
+                                    self.fail = true;
+                                    break;
                                 }
                                 (PStrContinuable::PStrOffset(pos), PStrContinuable::TailIndex(_)) => {
                                     self.s = HeapPtr::PStr(pstr_loc);
